@@ -2,6 +2,8 @@ try:
     import typing  # help IDEs with type-hinting inside docstrings  # noqa: F401 (unused import)
 except ImportError:
     pass
+from functools import partial
+
 import numdifftools as nd
 import numpy  # help IDEs with type-hinting inside docstrings
 import numpy as np
@@ -70,6 +72,9 @@ class XYParametricModel(ParametricModelBaseMixin, XYContainer):
         self._data = np.zeros((2, len(new_x)))
         self._data[0] = new_x
         self._pm_calculation_stale = True
+        # reset member error references to the new values
+        for _err_dict in self._error_dicts.values():
+            _err_dict["err"].reference = partial(self._get_error_reference, _err_dict["axis"])
         self._clear_total_error_cache()
 
     @property
